@@ -266,12 +266,95 @@ def all_regsets(tier):
 NSHARDS = 96
 
 
+# ---------------------------------------------------------------------------
+# clones of one prototype run in overlapping fashion (as ConcurrentTestSuite does with the clones
+# made by clone_test_with_new_id / testscenarios): each clone has its own cleanups
+
+CLONE_CONFIGS = (
+    ("cleanup@setUp", "cleanup@test"),
+    ("cleanup@setUp", "cleanup_by_cleanup@test"),
+    ("patch_existing@test", "cleanup@tearDown"),
+)
+
+
+def execute_clones(regs, chooser):
+    from testtools.testcase import clone_test_with_new_id
+
+    from vt.explore import sched as S
+
+    config = pg.Config(actions=build_actions(regs), kinds=(pg.RET, pg.ERROR), setup_pre_kinds=())
+    sched = S.Scheduler(chooser, horizon=500, exit_points=False)
+    proto_ctx = pg.Ctx(config, chooser)
+    proto = pg.new_case(config, proto_ctx)
+    ctxs, cases, outs = [], [], {}
+    for name in ("A", "B"):
+        c = clone_test_with_new_id(proto, "clone." + name)
+        ctx = pg.Ctx(config, chooser)
+        ctx.sched = sched
+        c._vt_ctx = ctx
+        ctxs.append(ctx)
+        cases.append(c)
+
+    def runner(i):
+        r = rec.Ext()
+        try:
+            cases[i].run(r)
+            how = "returned"
+        except BaseException as e:
+            if isinstance(e, S.SchedulerAbort):
+                raise
+            how = type(e).__name__
+        outs[i] = ([e[0] for e in r.log if e[0] in rec.OUTCOMES], how)
+
+    def main():
+        ths = [S.SThread(sched, target=runner, args=(i,), name="clone-%d" % i) for i in range(2)]
+        for t in ths:
+            t.start()
+        for t in ths:
+            t.join()
+
+    sched.execute(main)
+    return sched, config, ctxs, outs
+
+
+def check_clones(sched, config, ctxs, outs):
+    problems = []
+    if sched.deadlock:
+        return [("clones-deadlock", sched.deadlock)]
+    for i, ctx in enumerate(ctxs):
+        model = pg.ModelRun(config, ctx.memo)
+        impl = pg.impl_stage_log(ctx.xlog)
+        if impl != list(model.stages) or model.missing:
+            problems.append(("clones", "clone %s ran %r, its own lifecycle is %r (other clone ran %r)" % ("AB"[i], impl, model.stages, pg.impl_stage_log(ctxs[1 - i].xlog))))
+        for sc in (ctx.scratch,):
+            if getattr(sc, "existing", None) != "orig":
+                problems.append(("clones", "clone %s left the patched attribute at %r" % ("AB"[i], getattr(sc, "existing", None))))
+    return problems
+
+
 def shards(tier):
-    return list(range(NSHARDS))
+    return list(range(NSHARDS)) + [("clones", i) for i in range(len(CLONE_CONFIGS))]
 
 
 def run_shard(shard, tier, seed):
     res = ShardResult()
+    if isinstance(shard, tuple) and shard[0] == "clones":
+        regs = CLONE_CONFIGS[shard[1]]
+        from vt.explore.sched import PREEMPT  # noqa
+
+        def check(ch, o):
+            sched, config, ctxs, outs = o.v
+            res.evaluations += 1
+            res.distinct.add(obs_hash(("clones", regs, tuple(tuple(c.xlog) for c in ctxs))))
+            for clause, msg in check_clones(sched, config, ctxs, outs):
+                res.violation("C02/%s" % clause, "%s [registrations=%r]" % (msg, regs), {"clones": list(regs), "choices": ch.choices})
+
+        stats = explore(lambda ch: c01._wrap(execute_clones(regs, ch)), check, (2 if tier == "quick" else 3, 2), order_seed=seed)
+        res.states += stats.choice_points + 1
+        res.transitions += stats.edges
+        res.traces_validated += stats.executions
+        res.count("clone_schedules", stats.executions)
+        return res
     bound = 2 if tier == "quick" else 3
     regsets = all_regsets(tier)
     for regs in regsets[shard::NSHARDS]:
@@ -306,6 +389,10 @@ def meta(tier):
 
 
 def replay(data):
+    if "clones" in data:
+        o = execute_clones(tuple(data["clones"]), Chooser(data["choices"]))
+        p = check_clones(*o)
+        return (not p), "schedule=%r\nproblems=%r" % (o[0].trace, p)
     regs = tuple(data["regs"])
     ctx, config, run1, run2 = execute(regs, data["flavour"], Chooser(data["choices"]))
     problems, model = check_execution(ctx, config, run1, run2)
